@@ -33,7 +33,7 @@ def observe(s):
         state["depth"] += 1
         idx = len(calls)
         calls.append({"node": node, "ring_index": ring_index, "kids": [x[1] for x in t.edges(node)],
-                      "nrings": len(t.nodes[node]["type"].get_ring_info()), "raw_index": len(raws), "shift_index": len(shifteds)})
+                      "nrings": max(len(t.nodes[node]["type"].get_ring_info()), t.nodes[node]["type"].get_structure().GetRingInfo().NumRings()), "raw_index": len(raws), "shift_index": len(shifteds)})
         try:
             r = orig_mi(self, t, node, start, ring_index)
         finally:
